@@ -18,7 +18,7 @@ P = {
     "C05": (True, "MIR dominance (gate structure)", "Static rule discharge of the gate structure only: limiter is the only gate for non-forced frames, position updates precede and do not depend on the gate, paint reads live state. The numeric token-bucket law is NOT decided.", "3/C05"),
     "C06": (True, "call-graph dominance + taint (non-interference)", "Static rule discharge: terminal effects reachable only through a Drawable built under a visibility test; logical state does not depend on target kind or draw results.", "3/C06"),
     "C07": (False, "atomic-RMW dataflow + panic-edge ledger", "Static rule discharge: single-RMW discipline on the shared position, update before gate, saturating length arithmetic, fraction clamp, no unaudited panic edge in the position/length API.", "3/C07"),
-    "C08": (False, "lock-order/join graph acyclicity over lock classes", "Static rule discharge: lock+join graph acyclic, no guard across blocking waits, stop protocol shape, weak-only ticker captures, no guard in public signatures. 'Promptly' as a time bound is not decided.", "3/C08"),
+    "C08": (True, "lock-order/join graph acyclicity over lock classes", "Static rule discharge: lock+join graph acyclic, no guard across blocking waits, stop protocol shape, weak-only ticker captures, no guard in public signatures. 'Promptly' as a time bound is not decided.", "3/C08"),
     "C10": (False, "panic-edge ledger (totality)", "Static rule discharge of totality only: no unaudited panic edge reachable from with_template/template. Rendering fidelity is NOT decided.", "3/C10"),
     "C11": (False, "dispatch-table arm-effects vs documented keys", "Static rule discharge: each documented key has an arm that formats the expected accessor with the expected formatter; tracker write/tick/reset lifecycle; final tick string when finished. Not text equality.", "3/C11"),
     "C12": (False, "unit (qualifier) inference Cols/Bytes", "Static rule discharge of unit discipline: column counts and byte offsets are never mixed in padding/truncation. Rendered width for all strings is NOT decided.", "3/C12"),
